@@ -46,6 +46,8 @@ class StlPastifier(LtlPastifier, StlAstVisitor):
 
     def pastify(self, ast):
         self.ast = ast
+        for spec in ast.specs:
+            self.normalize_units(spec)
         h = StlHorizon()
         horizons = dict()
         for spec in ast.specs:
@@ -60,6 +62,28 @@ class StlPastifier(LtlPastifier, StlAstVisitor):
         ast.specs = pastified_specs
         ast.phi_name_to_node_dict = self.ast.phi_name_to_node_dict
         return ast
+
+    def normalize_units(self, node):
+        # The horizons and the intervals built below add and compare bounds:
+        # express every bound in the default unit first (same defaulting of a
+        # missing unit as in time_unit_transformer).
+        if isinstance(node, Interval):
+            b_unit = node.begin_unit
+            e_unit = node.end_unit
+            if len(b_unit) == 0:
+                if len(e_unit) > 0:
+                    b_unit = e_unit
+                else:
+                    b_unit = self.ast.unit
+                    e_unit = self.ast.unit
+            elif len(e_unit) == 0:
+                e_unit = b_unit
+            node.begin = node.begin * self.ast.U[b_unit] / self.ast.U[self.ast.unit]
+            node.end = node.end * self.ast.U[e_unit] / self.ast.U[self.ast.unit]
+            node.begin_unit = ''
+            node.end_unit = ''
+        for child in node.children:
+            self.normalize_units(child)
 
     def visit(self, node, *args, **kwargs):
         out = StlAstVisitor.visit(self, node, *args, **kwargs)
